@@ -40,5 +40,8 @@ def generate(d):
     out += 'Definition skew_set : list N := [%s].\n' % '; '.join('%d%%N' % c for c in skew_set(d))
     changed = write_if_changed(os.path.join(COQ, 'gen', 'OracleTables.v'), out)
     write_if_changed(os.path.join(BUILD, 'engine_d.txt'), "".join("%d %d\n" % (a, b) for a, b in d['engine_d']))
+    for k, fn in [('engine_d', 'engine_d.txt'), ('engine_w', 'engine_w.txt'), ('engine_s', 'engine_s.txt'),
+                  ('engine_D', 'engine_neg_d.txt'), ('engine_W', 'engine_neg_w.txt'), ('engine_S', 'engine_neg_s.txt')]:
+        write_if_changed(os.path.join(BUILD, fn), "".join("%d %d\n" % (a, b) for a, b in d[k]))
     write_if_changed(os.path.join(BUILD, 'std_ws.txt'), "".join("%d %d\n" % (a, b) for a, b in d['is_whitespace']))
     return changed
